@@ -30,6 +30,8 @@ pub struct Monitors {
     pub panics: bool,
     pub lower_immutable: bool,
     pub markers_hidden: bool,
+    /// C20: for every call, fail every single underlying call position (and pairs if > 1)
+    pub faults: u8,
 }
 
 #[derive(Clone, Debug)]
@@ -440,6 +442,76 @@ impl TreeSpace {
             }
         }
         (vio, next_model, diverged)
+    }
+}
+
+impl TreeSpace {
+    /// C20: re-runs `op` from the same state once per fault position k = 1..n (n = number of calls
+    /// the fault-free run makes into wrapped filesystems) and, with `faults >= 2`, per pair k1 < k2.
+    fn fault_sweep(&self, st: &State<TAux>, op: &Op, out0: &Outcome, n: usize, after0: &Snap, e: &mut Expansion<TAux>) {
+        let mut plans: Vec<[usize; 2]> = (1..=n).map(|k| [k, 0]).collect();
+        if self.mon.faults >= 2 && !op.is_observer() && !op.is_primitive() {
+            for k1 in 1..=n {
+                for k2 in (k1 + 1)..=n {
+                    plans.push([k1, k2]);
+                }
+            }
+        }
+        for plan in plans {
+            let b = self.rebuild(st.init, &st.hist);
+            b.ctl.arm(plan);
+            let out = apply(&b.root, op);
+            let log = b.ctl.disarm();
+            let after = snapshot(&b.root, &self.probes);
+            e.transitions += 1;
+            let reached = log.iter().filter(|l| l.injected).count();
+            *e.counters.entry(format!("faults:{}", if reached > 0 { "reached" } else { "not-reached" })).or_insert(0) += 1;
+            if reached == 0 {
+                continue; // an earlier fault changed the control flow (only possible for the second of a pair)
+            }
+            let site = log.iter().find(|l| l.injected).map(|l| format!("{}@{}", l.method, if l.node == "0" { "top" } else if node_is_lower(&self.cfg, &l.node) { "lower" } else { "underlying" })).unwrap_or_default();
+            let mut bad: Option<(String, String)> = None;
+            match &out {
+                Outcome::Panic(m) => bad = Some(("panic".into(), format!("panicked: {}", m))),
+                Outcome::Err(_) => {
+                    *e.counters.entry("faults:turned-into-Err".into()).or_insert(0) += 1;
+                }
+                Outcome::Ok(Val::Walk(items)) if items.iter().any(|i| i.is_err()) => {
+                    *e.counters.entry("faults:turned-into-Err-item".into()).or_insert(0) += 1;
+                }
+                Outcome::Ok(v) => {
+                    // success is only acceptable with the complete fault-free effect and answer
+                    let same_val = match out0 {
+                        Outcome::Ok(v0) => v0 == v,
+                        _ => false,
+                    };
+                    if !same_val {
+                        bad = Some(("ok-with-wrong-answer".into(), format!("returned {:?} although the fault-free run returns {}", v, out0.short())));
+                    } else if !after.same_tree(after0) {
+                        bad = Some(("ok-with-partial-effect".into(), format!("returned Ok but the tree differs from the fault-free result: {:?} vs {:?}", after.dump(), after0.dump())));
+                    } else {
+                        *e.counters.entry("faults:completed-by-another-route".into()).or_insert(0) += 1;
+                    }
+                }
+            }
+            for l in &log {
+                if is_mutating(l.method) && node_is_lower(&self.cfg, &l.node) {
+                    bad = Some(("mutating-call-on-lower-layer".into(), format!("issued {}({:?}) to lower layer node {}", l.method, l.path, l.node)));
+                }
+            }
+            if let Some((tail, what)) = bad {
+                let sig = format!("{}|{}|fault-in-{}|{}", self.cfg.label(), op.name(), site, tail);
+                *e.vio_counts.entry(sig.clone()).or_insert(0) += 1;
+                if self.want_full(&sig) {
+                    e.violations.push(Violation {
+                        property: self.property.clone(),
+                        signature: sig,
+                        summary: format!("{} on {} with underlying call #{:?} failing ({}): {}", op.show(), self.cfg.label(), plan, site, what),
+                        replay: self.replay_json(st.init, &st.hist, Some(op), json!({"fault_positions": plan.to_vec(), "calls": log.iter().map(|l| format!("{}{} {}({:?})", if l.injected { "FAIL " } else { "" }, l.node, l.method, l.path)).collect::<Vec<_>>(), "fault_free": out0.short(), "observed": out.short()})),
+                    });
+                }
+            }
+        }
     }
 }
 
@@ -881,8 +953,12 @@ impl Space for TreeSpace {
             let deep_before = if self.mon.lower_immutable { lower_deep(&b) } else { vec![] };
             b.ctl.arm([0, 0]);
             let out = apply(&b.root, op);
+            let ncalls = b.ctl.calls.load(std::sync::atomic::Ordering::SeqCst);
             let log = b.ctl.disarm();
             let after = snapshot(&b.root, &self.probes);
+            if self.mon.faults > 0 {
+                self.fault_sweep(st, op, &out, ncalls, &after, &mut e);
+            }
             let after_raw = if need_raw { self.raw_snaps(&b) } else { vec![] };
             e.transitions += 1;
             let (vs, next_model, diverged) = self.check_step(&b, op, &out, &log, &before, &before_raw, &after, &after_raw, model, &deep_before);
